@@ -94,7 +94,7 @@ def variants_stream(ctx, n):
                 ctx.disagree("C02:grid-join:value", desc, "join of every pair", r[1:3] if r[0] != "ok" else "differs", replay=[desc])
 
 
-def rounded_dependent_stream(ctx, n):
+def rounded_dependent_stream(ctx, n, prefix="C02"):
     """dependent configurations reached by a floating point computation (a sum, a transformation and its inverse, a convex
     combination) instead of being typed in: the residual of the contraction is rounding noise (~1e-16), far inside the
     library's tolerance, so the documented error has to be raised (single objects and, with the exact mask, collections)"""
@@ -102,7 +102,7 @@ def rounded_dependent_stream(ctx, n):
     rng = ctx.rng
     for k in range(n):
         dim = rng.choice([2, 3])
-        kind = rng.choice(["sum", "roundtrip", "combination", "collection"])
+        kind = rng.choice(["sum", "roundtrip", "combination", "collection", "multiple", "multiple"])
         def fp():
             return [rng.randint(-9, 9) / 10.0 for _ in range(dim)]
         a = fp()
@@ -112,6 +112,17 @@ def rounded_dependent_stream(ctx, n):
             p = g.Point(*([i1 / 10.0 + i2 / 10.0] + a[1:]))
             q = g.Point(*([(i1 + i2) / 10.0] + a[1:]))
             f, desc = (lambda: g.join(p, q)), f"join of (x/10 + y/10, ...) and ((x+y)/10, ...) x={i1} y={i2} rest={a[1:]}"
+        elif kind == "multiple":
+            # another representative of the SAME object: coordinates with a non-integer float part times a factor that is not a power of two
+            s_ = rng.choice([3.0, 0.7, -1.3, 10.1, 1.0 / 3.0])
+            v = np.array(a + [1.0]) * rng.choice([1.0, 0.3])
+            if not np.any(v[:-1]):
+                continue
+            what = rng.choice(["points", "hyperplanes"])
+            cls = g.Point if what == "points" else (g.Line if dim == 2 else g.Plane)
+            x, y = cls(v), cls(v * s_)
+            f = (lambda: g.join(x, y)) if what == "points" else (lambda: g.meet(x, y))
+            desc = f"{'join' if what == 'points' else 'meet'} of {what[:-1]} {v.tolist()} and {s_} times it"
         elif kind == "roundtrip":
             t = g.rotation(np.arctan2(3.0, 4.0)) if dim == 2 else g.rotation(np.arctan2(5.0, 12.0), axis=g.Point(1.0, 2.0, 2.0))
             p = g.Point(*a)
@@ -143,7 +154,7 @@ def rounded_dependent_stream(ctx, n):
         if ok and kind == "collection":
             ok = np.array_equal(np.asarray(getattr(r[2], "dependent_values", None)), np.array([True, False]))
         if not ok:
-            ctx.disagree(f"C02:rounded-dependent:{kind}", desc, "LinearDependenceError" + (" with mask [True, False]" if kind == "collection" else ""),
+            ctx.disagree(f"{prefix}:rounded-dependent:{kind}", desc, "LinearDependenceError" + (" with mask [True, False]" if kind == "collection" else ""),
                          r[1:3] if r[0] != "ok" else "a result: " + str(np.asarray(r[1].array).tolist())[:200], replay=[desc])
 
 
